@@ -27,6 +27,7 @@ type Engine struct {
 	Notes      map[string]bool // modelling notes (inline, unsupported) actually hit
 	LockHook   lockHook
 	GhostFns   map[string]*GhostFn
+	Ld         *Loaded // the module being verified (syntax for replay extraction)
 }
 
 type Intrinsic func(r *FnRun, st *State, call ssa.CallInstruction, args []Val) (Val, bool)
@@ -83,6 +84,7 @@ type FnRun struct {
 	pendingFree  map[string]Val
 	loopHavoc    bool
 	FnName       string
+	ld           *Loaded
 }
 
 type loopInfo struct {
@@ -127,7 +129,7 @@ func shortFn(fn *ssa.Function) string {
 // generated goals.
 func (e *Engine) VerifyFunc(fn *ssa.Function, c *FuncContract) (run *FnRun) {
 	r := &FnRun{E: e, Fn: fn, C: c, params: map[string]Val{}, ptypes: map[string]types.Type{}, lets: map[string]Val{},
-		loops: map[*ssa.BasicBlock]*loopInfo{}, siteCnt: map[string]int{}, siteIdx: map[ssa.Instruction]int{}, FnName: shortFn(fn)}
+		loops: map[*ssa.BasicBlock]*loopInfo{}, siteCnt: map[string]int{}, siteIdx: map[ssa.Instruction]int{}, FnName: shortFn(fn), ld: e.Ld}
 	r.implicit = c.Opts["implicit_panics"] == "allowed"
 	IntMode = c.Arith == "int"
 	r.intMode = IntMode
@@ -176,6 +178,24 @@ func (e *Engine) VerifyFunc(fn *ssa.Function, c *FuncContract) (run *FnRun) {
 		}
 	}
 	r.Entry = st
+	// package-level variables the contract declares constant: checked syntactically
+	// (nothing in the package stores to them or lets their address escape), then
+	// their zero value is assumed
+	for _, gname := range strings.Fields(strings.ReplaceAll(c.Opts["constglobals"], ",", " ")) {
+		g, _ := fn.Pkg.Members[gname].(*ssa.Global)
+		if g == nil {
+			r.Unsupp = append(r.Unsupp, "constglobals: no package-level variable "+gname)
+			continue
+		}
+		if why := globalNeverWritten(fn.Pkg, g); why != "" {
+			r.Unsupp = append(r.Unsupp, "constglobals: "+gname+" is not constant: "+why)
+			continue
+		}
+		et := g.Type().(*types.Pointer).Elem()
+		cur := r.loadAt(st, r.globalAddr(st, g).(Term), et)
+		st.assume(identVals(cur, r.zeroVal(et)), "package-level variable "+gname+" is never written (checked over the package's SSA): it holds its zero value")
+		r.E.Notes["package-level variable "+gname+" holds its zero value: no instruction of the package stores to it or takes its address for anything but a load (checked on every run)"] = true
+	}
 	// requires (assumed), lets
 	env := r.env(st, st)
 	env.assuming = true
@@ -849,6 +869,15 @@ func (r *FnRun) constVal(st *State, c *ssa.Const) Val {
 			return fpConst(f, s.W)
 		}
 	}
+	if b, ok := t.Underlying().(*types.Basic); ok && b.Info()&types.IsComplex != 0 {
+		w := 64
+		if b.Kind() == types.Complex64 {
+			w = 32
+		}
+		re, _ := constant.Float64Val(constant.Real(c.Value))
+		im, _ := constant.Float64Val(constant.Imag(c.Value))
+		return &StructVal{N: []string{"re", "im"}, F: []Val{fpConst(re, w), fpConst(im, w)}}
+	}
 	if b, ok := t.Underlying().(*types.Basic); ok && b.Info()&types.IsString != 0 {
 		sval := constant.StringVal(c.Value)
 		return r.stringLit(st, sval)
@@ -1033,6 +1062,7 @@ func (r *FnRun) implicitCheck(st *State, ins ssa.Instruction, kind string, ok Te
 		return
 	}
 	r.addGoal(st, "safe."+site, r.posOf(ins), ok, nil)
+	r.Goals[len(r.Goals)-1].Replay = r.scalarReplay(&Clause{Label: "safe." + site}, "no-panic")
 	st.assume(ok, site+" ok")
 }
 
@@ -1131,8 +1161,14 @@ func (r *FnRun) binopVals(st *State, ins ssa.Instruction, op token.Token, a, b V
 		case token.SUB:
 			return Term{"(fp.sub RNE " + ta.S + " " + tb.S + ")", ta.Sort}
 		case token.MUL:
+			if r.C != nil && r.C.Opts["fp"] == "exact" {
+				return Term{"(fp.mul RNE " + ta.S + " " + tb.S + ")", ta.Sort}
+			}
 			return Term{fmt.Sprintf("(ufpmul%d %s %s)", ta.Sort.W, ta.S, tb.S), ta.Sort}
 		case token.QUO:
+			if r.C != nil && r.C.Opts["fp"] == "exact" {
+				return Term{"(fp.div RNE " + ta.S + " " + tb.S + ")", ta.Sort}
+			}
 			return Term{fmt.Sprintf("(ufpdiv%d %s %s)", ta.Sort.W, ta.S, tb.S), ta.Sort}
 		}
 		panic(unsupported("float op " + op.String()))
@@ -1822,6 +1858,9 @@ func (r *FnRun) finish() {
 			for _, cl := range c.ByKind("ensures") {
 				i++
 				r.addGoal(o.St, clauseName("ensures", cl, i), "", env.evalBool(cl.E), cl.Props)
+				if g := r.Goals[len(r.Goals)-1]; g.Goal.S != "true" {
+					g.Replay = r.scalarReplay(cl, "ensures")
+				}
 			}
 			i = 0
 			for _, cl := range c.ByKind("panics_iff") {
@@ -1836,6 +1875,7 @@ func (r *FnRun) finish() {
 			npanic++
 			if !c.HasPanicSpec() {
 				r.addGoal(o.St, "no-panic", o.Why, False, nil)
+				r.Goals[len(r.Goals)-1].Replay = r.scalarReplay(&Clause{Label: "no-panic"}, "no-panic")
 				continue
 			}
 			i := 0
@@ -2005,4 +2045,49 @@ func (e *Engine) LemmaGoal(lm *Lemma) (g *Goal, err error) {
 	}
 	t := env.evalBool(lm.E)
 	return &Goal{Oblig: "lemma." + lm.Name, Fn: "lemma." + lm.Name, Prefix: st.log, Goal: t, Expect: "unsat"}, nil
+}
+
+
+// globalNeverWritten returns "" when no instruction of the package uses the
+// global other than as the address operand of a load.
+func globalNeverWritten(pkg *ssa.Package, g *ssa.Global) string {
+	var fns []*ssa.Function
+	var add func(f *ssa.Function)
+	add = func(f *ssa.Function) {
+		fns = append(fns, f)
+		for _, a := range f.AnonFuncs {
+			add(a)
+		}
+	}
+	for _, m := range pkg.Members {
+		switch x := m.(type) {
+		case *ssa.Function:
+			add(x)
+		case *ssa.Type:
+			for _, t := range []types.Type{x.Type(), types.NewPointer(x.Type())} {
+				ms := pkg.Prog.MethodSets.MethodSet(t)
+				for i := 0; i < ms.Len(); i++ {
+					if mf := pkg.Prog.MethodValue(ms.At(i)); mf != nil && mf.Pkg == pkg {
+						add(mf)
+					}
+				}
+			}
+		}
+	}
+	for _, f := range fns {
+		for _, b := range f.Blocks {
+			for _, ins := range b.Instrs {
+				for _, op := range ins.Operands(nil) {
+					if *op != ssa.Value(g) {
+						continue
+					}
+					if u, ok := ins.(*ssa.UnOp); ok && u.Op == token.MUL {
+						continue
+					}
+					return fmt.Sprintf("used by %s in %s", ins, f.Name())
+				}
+			}
+		}
+	}
+	return ""
 }
